@@ -99,6 +99,7 @@ static void body(const symx::Case &c, const std::string &line) {
         if (!perm.empty()) for (auto &ed : t.edges) { ed.first = perm[ed.first]; ed.second = perm[ed.second]; }
     }
     WeightMap wm = boost::get(boost::edge_weight, g);
+    e->case_json += ",\"layout\":\"" + address_order(g, eidx) + "\"";
 
     if (algo == "spanner") {
         check_spanner(c, I, t, g, eidx, k);
@@ -151,7 +152,7 @@ static void body(const symx::Case &c, const std::string &line) {
     symx::prove(ret.expr() == lin_of_cycles(cyc, I.w).expr(), "C05:ret==weight-of-emitted-cycles-under-callers-map");
     if (valid) {
         // C06: no cycle basis B' with (2k-1)*w(B') < ret  (every basis is an invertible GF(2) transform of the emitted one)
-        if (cyc.size() <= 5)
+        if (cyc.size() <= 4)   // the matrix form has 2*N^2 booleans; N = 5 costs seconds per leaf (bound stated in the evidence)
             prove_no_lighter_basis(cyc, I.w, t.m(), (long) (2 * k - 1), ret.expr(), "C06:ret<=(2k-1)*OPT(invertible-matrix form)");
         if (k == 1) prove_minimal(cyc, I.w, t.m(), "C06:k=1-minimal");
     }
